@@ -2,11 +2,22 @@
 """Generates /verif/MANIFEST.json from the table below (kept in one place so it stays valid)."""
 import json, sys
 
+COMMON_NOTE = "Bounded scope (lengths, alphabets, parameter bands as recorded in the evidence file); the reference models in mc-ref are trusted (they are independent two-pass / scan / sort formulations with golden tests); finite exact inputs (DESIGN 3.1, 5.2); checked build profile (DESIGN 2.2)."
 CLAIMED = {
- "C01": dict(ref="DESIGN 4 C01", tech="exhaustive history-tree exploration (DFS, no state merging) of the real rolling kernels vs from-scratch reference model; de Bruijn long traces",
-   text="Every word over a 5/6-letter exact value alphabet up to length 6-8, every window 1..=len+2, every min_periods, 18 entry points, 22 element-type pairs, both output paths: each output position equals the statistic recomputed from its window by an independent two-pass model. Long de Bruijn traces cover drift after thousands of add/remove steps.",
-   note="Bounded scope (length, alphabet); model in mc-ref is trusted; finite exact inputs only (DESIGN 5.2); chrono/polars not involved."),
+ "C01": dict(ref="DESIGN 4 C01", tech="exhaustive history-tree exploration (DFS, no state merging) of the real rolling kernels against a from-scratch reference model; de Bruijn long traces",
+   text="Every word over a 5/6-letter exact value alphabet up to length 6-8, every window 1..=len+2, every min_periods, 18 entry points, 22 element-type pairs, both output paths: each output position equals the statistic recomputed from its window by an independent two-pass model. de Bruijn traces cover drift after thousands of add/remove steps."),
+ "C02": dict(ref="DESIGN 4 C02", tech="explicit-state protocol model of the callback protocol + trace conformance: every (driver, back end, output, path, len, w) run is replayed against the model event by event",
+   text="All 12 driver bodies on every input back-end configuration (ring offsets, strides, chunkings), every output container and path, len 0..=7, w 1..=len+3: the recorded callback trace conforms to the 3-variable protocol machine and out[i] is the result of call i."),
+ "C03": dict(ref="DESIGN 4 C03", tech="exhaustive history-tree exploration over a tie-heavy alphabet, all order types (permutations with nulls), extreme values; exact comparison with a window scan",
+   text="Rolling min/max/arg/rank compared exactly, normalisations within 1e-9, at every position of every explored history, window and min_periods; includes every relative order of up to 7 distinct values (worst case for extreme expiry) and long de Bruijn traces."),
+ "C04": dict(ref="DESIGN 4 C04", tech="exhaustive pair-history-tree exploration against per-window OLS / covariance recomputed from the pairwise-complete observations; collinear family",
+   text="All words over 16 pair symbols up to length 4-5 and single-series trees for the trend family, every window 2..=len+2 and min_periods: covariance, correlation, 6 regression-on-x and 5 trend statistics equal the from-scratch model; perfect linear windows have zero residual."),
+ "C05": dict(ref="DESIGN 4 C05", tech="exhaustive history-tree exploration of the null-mask law (exact boolean oracle) over all rolling entry points and all input back ends",
+   text="For every null pattern up to length 6-8, every window 1..=len+3, every min_periods (explicit and omitted) and all ~45 entry points: one output per input, no panic, and output null exactly when the valid count is below max(min_periods, intrinsic minimum) or the statistic is undefined; short words on every back end incl. empty input."),
+ "C06": dict(ref="DESIGN 4 C06", tech="exhaustive exploration of the parent/child relation of the history tree (prefix law bit-for-bit on every edge) and of all (pre-history, window) pairs",
+   text="Every edge of the history trees: f(child)[..len-1] == f(parent) bit for bit for all rolling entry points, windows, min_periods and positive-lag shift/diff/pct; every window word with every finite pre-history gives the same last output (exact for min/max/arg/rank)."),
 }
+for _k in CLAIMED: CLAIMED[_k].setdefault("note", COMMON_NOTE)
 
 REASONS_PENDING = "check not built yet in this commit (planned, see DESIGN.md section 4)"
 
